@@ -239,8 +239,11 @@ def run(ck):
     ck.rule = ("behaviours of UdpPeers.tla (2 peers, 2 listeners): a sample of the transition cover of the dumped state graph "
                "(<=3 sessions, depth 4, every edge labelled with one of the datagram size classes 1/1472/65507), random walks, "
                "TLC -simulate behaviours of a deeper configuration (<=4 sessions, 10 steps, with and without maxSessions=2) "
-               "and the TLC counterexample of the F-06a deviation; each replayed step by step on the real UdpEngine over "
-               "loopback (edge/level triggered, batching on/off).  Non-trivial = the behaviour contains a connect-via-listener, "
+               "and the TLC counterexamples of the F-06a and read-budget deviations; each replayed step by step on the real UdpEngine "
+               "over loopback (edge/level triggered, batching on/off; every third behaviour on dual-stack IPv6 listeners with the peers "
+               "::ffff:127.0.0.1, ::ffff:127.0.0.2, ::1).  Burst behaviours (graphs with socket receive queues): the I/O thread is parked "
+               "in a callback, each model arrival is 1/8/70/100 raw datagrams (>= 200 on one listener or client socket in the big ones), "
+               "then it is released and nothing is sent any more.  Non-trivial = the behaviour contains a connect-via-listener, a burst, "
                "a close / idle expiry, an injected EAGAIN or send error, a session-cap drop, or traffic on a client session.")
     # exhaustive runs: (cap, MaxSteps, with coverage statistics).  The coverage runs (self-test: every action taken) use a
     # smaller depth because -coverage slows TLC down considerably.
@@ -274,7 +277,7 @@ def run(ck):
     def job_burst(key):
         name, kw = key
         cfg = os.path.join(ck.work, "burst_%s.cfg" % name)
-        vf.write_cfg(cfg, constants=consts(2, 7 if thorough else 6, "m", kw.get("cap", 0), burst=3, et=kw["et"], listeners=bl), invariants=INVS)
+        vf.write_cfg(cfg, constants=consts(2, 7 if thorough else 5, "m", kw.get("cap", 0), burst=3, et=kw["et"], listeners=bl), invariants=INVS)
         return vf.run_tlc(IMPL, cfg, tag="C06_burst_" + name, workers=3, timeout=1500)
 
     def job_budget(et):
